@@ -53,11 +53,19 @@ def build_objstm(members, rng, sp, trailing_ws, member_sep):
     """payload of an object stream (ISO 32000-1 §7.5.7): N pairs then the objects; returns (payload, first)"""
     body = bytearray()
     offs = []
+    texts = [ser_value(v, sp) for _, v in members]
+    build_objstm.abuts = 0
     for i, (num, v) in enumerate(members):
         offs.append((num, len(body)))
-        body += ser_value(v, sp)
+        body += texts[i]
         if i + 1 < len(members):
-            body += member_sep if member_sep else b" "
+            # no separator at all where the two members cannot merge: the first ends with, or the second starts with, a delimiter
+            # ("12[1 2]/Nm(str)<<…>>" is a legal payload: ISO 32000-1 7.2.2 requires white-space only between regular tokens)
+            can_abut = texts[i][-1:] in (b")", b"]", b">") or texts[i + 1][:1] in (b"[", b"(", b"<", b"/")
+            if can_abut and rng.random() < 0.5:
+                build_objstm.abuts += 1
+            else:
+                body += member_sep if member_sep else b" "
         elif trailing_ws:
             body += trailing_ws
     # a separator is required between two members only where their tokens would merge; a single space is always legal
@@ -141,7 +149,8 @@ def generate(rng, tier):
         for idx, (v, dn, cn) in enumerate(zip(vals, dnums, cnums)):
             pos = "first" if idx == 0 else ("last" if idx == n - 1 else "middle")
             exp = ok(S.canon(v))
-            tags = ["kind:" + type(v).__name__, "pos:" + pos, "filter:%s" % filt, "trail:%r" % trailing]
+            tags = ["kind:" + type(v).__name__, "pos:" + pos, "filter:%s" % filt, "trail:%r" % trailing,
+                    "members-abutting:%s" % ("yes" if build_objstm.abuts else "no")]
             yield Case("resolve_one", [b"s", data, str(dn).encode()], expect=exp, model=False, tags=tags + ["direct"])
             yield Case("objstm", [b"s", data, str(cn).encode()], mfields=[str(first).encode(), str(n).encode(), str(idx).encode(), payload],
                        expect=exp, tags=tags + ["compressed"])
